@@ -74,6 +74,13 @@ def register(m):
     m("C15", "b4-convert-vector-rewrites-components-regression", "symplyphysics/core/experimental/coordinate_systems/convert.py",
       "    return vector.subs(conversion_at_point, simultaneous=True)\n", "    return vector.subs(conversion, simultaneous=True).subs(new_point.coordinates, simultaneous=True)\n", "X4",
       note="the genuine defect repaired in f48be70")
+    QDEC = "symplyphysics/core/quantity_decorator.py"
+    m("C04", "b4-zero-vector-condition-on-dimension", QDEC,
+      "        elif isinstance(item, QuantityVector) and all(\n                is_any_dimension(c.scale_factor) for c in item.components):",
+      "        elif isinstance(item, QuantityVector) and dimsys_SI.is_dimensionless(item.dimension):", "K3",
+      extra=[(QDEC, "from sympy import S\n", "from sympy import S\nfrom sympy.physics.units.systems.si import dimsys_SI\n", 1)],
+      note="the proxy of seed b3_C04_2: a unit-less non-zero vector is dimensionless too")
+    m("C04", "b4-zero-vector-any-instead-of-all", QDEC, "        elif isinstance(item, QuantityVector) and all(\n", "        elif isinstance(item, QuantityVector) and any(\n", "K3")
     # C09 N1: factories hand out fresh systems
     m("C09", "b2-transform-returns-argument", CSYS,
       ") -> CoordinateSystem:\n    new_coord_system = from_system.coord_system.create_new(",
